@@ -210,9 +210,10 @@ def load_known():
         return json.load(f).get('findings', [])
 
 
-def replay_once(exe, prop, tape, env, timeout=300):
+def replay_once(exe, prop, tape, env, timeout=300, case_timeout=120):
     try:
-        r = run([exe, '--prop', prop, '--replay', tape, '--fail-dir', env['RSV_SCRATCH']], stdout=subprocess.PIPE,
+        r = run([exe, '--prop', prop, '--replay', tape, '--fail-dir', env['RSV_SCRATCH'], '--case-timeout', str(case_timeout)],
+                stdout=subprocess.PIPE,
                 stderr=subprocess.STDOUT, env=env, timeout=timeout)
     except subprocess.TimeoutExpired:
         return 'INCONCLUSIVE', 'replay timed out'
@@ -222,6 +223,10 @@ def replay_once(exe, prop, tape, env, timeout=300):
         if line.startswith('REPLAY verdict='):
             verdict = line.split('verdict=')[1].split()[0]
     return verdict, out
+
+
+def failing(verdict, st):
+    return verdict in ('FAIL', 'CRASH') or (verdict == 'TIMEOUT' and st.get('hang_is_failure', False))
 
 
 def sanitizer_digest(text):
@@ -333,12 +338,15 @@ def _check(prop, tier, replay, spec, seed, jobs, t0, scratch, env, known):
 
     if replay:
         st = stages[0]
+        base = os.path.basename(replay)
         for s in stages:
-            if os.path.basename(replay).startswith(s['harness']) or ('/' + s['harness'] + '/') in replay:
+            tag = s['harness'] + ('' if s.get('variant', 'core') == 'core' else '@' + s['variant'])
+            if base.startswith(tag + '-') or ('/' + tag + '/') in replay:
                 st = s
-        v, out = replay_once(exes[(st['harness'], st.get('variant', 'core'))], prop, replay, env)
+        v, out = replay_once(exes[(st['harness'], st.get('variant', 'core'))], prop, replay, env,
+                             case_timeout=st.get('replay_case_timeout', 120))
         print(out)
-        if v in ('FAIL', 'CRASH'):
+        if failing(v, st):
             print('VIOLATION property=%s replay=%s' % (prop, replay))
             return 1
         return 0
@@ -351,10 +359,11 @@ def _check(prop, tier, replay, spec, seed, jobs, t0, scratch, env, known):
     for k in known:
         tp = os.path.join(VERIF, k['replay'])
         st = [s for s in stages if s['harness'] == k.get('harness', stages[0]['harness'])][0]
-        v, out = replay_once(exes[(st['harness'], st.get('variant', 'core'))], prop, tp, env)
+        v, out = replay_once(exes[(st['harness'], st.get('variant', 'core'))], prop, tp, env,
+                             case_timeout=st.get('replay_case_timeout', 120))
         if v == 'KNOWN':
             known_lines.append('KNOWN-FINDING: property=%s %s [%s]' % (prop, k['what'], k['key']))
-        elif v in ('FAIL', 'CRASH'):
+        elif failing(v, st):
             violations.append(dict(prop=prop, replay=tp, msg='listed finding %s now fails differently: %s' % (k['key'], out[-800:]),
                                    sample=''))
         else:
@@ -365,11 +374,12 @@ def _check(prop, tier, replay, spec, seed, jobs, t0, scratch, env, known):
         if tier == 'quick' and st.get('thorough_only'):
             continue
         exe = exes[(st['harness'], st.get('variant', 'core'))]
-        for tp in sorted(glob.glob(os.path.join(VERIF, 'replay', prop, st['harness'], '*.tape'))):
-            v, out = replay_once(exe, prop, tp, env)
+        tag = st['harness'] + ('' if st.get('variant', 'core') == 'core' else '@' + st['variant'])
+        for tp in sorted(glob.glob(os.path.join(VERIF, 'replay', prop, tag, '*.tape'))):
+            v, out = replay_once(exe, prop, tp, env, case_timeout=st.get('replay_case_timeout', 120))
             n_replayed += 1
-            if v in ('FAIL', 'CRASH'):
-                violations.append(dict(prop=prop, replay=tp, msg=out[-1500:], sample=''))
+            if failing(v, st):
+                violations.append(dict(prop=prop, replay=tp, msg=out[-1500:], sample='', harness=st['harness'], variant=st.get('variant', 'core')))
     # ---- generated campaigns ------------------------------------------------------
     for si, st in enumerate(stages):
         if tier == 'quick' and st.get('thorough_only'):
@@ -403,19 +413,19 @@ def _check(prop, tier, replay, spec, seed, jobs, t0, scratch, env, known):
         tp = v['replay']
         st = None
         for s in stages:
-            if v.get('harness') == s['harness']:
+            if v.get('harness') == s['harness'] and v.get('variant', s.get('variant', 'core')) == s.get('variant', 'core'):
                 st = s
         st = st or stages[0]
         exe = exes.get((st['harness'], st.get('variant', 'core')))
         oks = 0
         outs = ''
         for _ in range(3):
-            vv, outs = replay_once(exe, prop, tp, env)
-            if vv in ('FAIL', 'CRASH'):
+            vv, outs = replay_once(exe, prop, tp, env, case_timeout=st.get('replay_case_timeout', 120))
+            if failing(vv, st):
                 oks += 1
         need = 3 if st.get('deterministic', True) else 1
         if oks >= need:
-            dst = os.path.join(VERIF, 'findings', prop, st['harness'] + '-' + os.path.basename(tp))
+            dst = os.path.join(VERIF, 'findings', prop, st['harness'] + ('' if st.get('variant', 'core') == 'core' else '@' + st['variant']) + '-' + os.path.basename(tp))
             if os.path.abspath(tp) != os.path.abspath(dst) and not tp.startswith(os.path.join(VERIF, 'replay')):
                 shutil.copyfile(tp, dst)
             else:
@@ -475,7 +485,7 @@ def run_rc_stage(prop, st, par, exe, seed, jobs, scratch, env, si):
         stats_files.append(sf)
         e = dict(env)
         # distinct, reproducible stream per worker
-        wseed = (seed * 1000003 + si * 7919 + w * 104729 + 17) & 0x7fffffffffffffff
+        wseed = (seed * 1000003 + si * 7919 + w * 104729 + 17 + sum(ord(ch) * 131 ** i for i, ch in enumerate(prop))) & 0x7fffffffffffffff
         e['RC_PARAMS'] = 'seed=%d max_success=%d max_size=%d max_discard_ratio=50' % (wseed, per, par.get('max_size', 100))
         for k, v in st.get('env', {}).items():
             e[k] = str(v)
@@ -510,12 +520,13 @@ def run_rc_stage(prop, st, par, exe, seed, jobs, scratch, env, si):
                 with open(dst, 'wb') as fh:
                     fh.write(raw[4:4 + ln])
                 failures.append(dict(prop=prop, replay=dst, msg='harness crashed (exit %d): %s' % (rc, tail), sample='',
-                                     harness=st['harness']))
+                                     harness=st['harness'], variant=st.get('variant', 'core')))
             else:
                 log('[rsv] worker %d exited with %d without an in-flight tape:\n%s' % (w, rc, tail))
     tot, cls_sum, cls_cases, known, samples, rule, fl = merge_stats(stats_files)
     for f in fl:
         f['harness'] = st['harness']
+        f['variant'] = st.get('variant', 'core')
         failures.append(f)
     return dict(stage=st.get('name', st['harness']), engine='rapidcheck tape -> ' + st['harness'], evaluations=tot['evaluations'],
                 passed=tot['pass_'], failed=tot['fail'], discard=tot['discard'], inconclusive=tot['inconclusive'],
